@@ -354,7 +354,7 @@ def sharing(tier, seed):
             derive(g, ["face_lon", "face_x", "edge_x", "n_nodes_per_face", "edge_node_connectivity", "face_areas"])
         return g
 
-    for mesh in meshes[: (12 if thorough else 4)]:
+    for mesh in meshes[: (40 if thorough else 4)]:
         for prepared in ("plain", "scaled_xyz", "derived"):
             for mname, mut in mutators():
                 for direction in ("original_mutated", "copy_mutated"):
@@ -395,7 +395,7 @@ def sharing(tier, seed):
 
     # ================================================================ C. exports
     V_EXP = "datasets and geometry objects returned by export calls can be modified by the caller without changing what the Grid reports"
-    for mesh in meshes[: (12 if thorough else 4)]:
+    for mesh in meshes[: (40 if thorough else 4)]:
         for prepared in ("plain", "derived"):
             # ---- to_xarray (first and second call: the second takes another path through _encode_ugrid)
             for ncall in (1, 2):
